@@ -24,8 +24,9 @@ def tla_constants(units):
     return defs, ['Units <- t_Units', 'UnitOrder <- t_Order', 'MaxBack = 0']
 
 
-def build(units, edges, feeds, products):
-    """Real units and streams for a flowsheet: edges = [(u, v)], feeds / products = {unit: count}."""
+def build(units, edges, feeds, products, ports=None):
+    """Real units and streams for a flowsheet: edges = [(u, v)], feeds / products = {unit: count}; `ports` (a seed)
+    shuffles the order of every unit's inlets and outlets."""
     ins = {u: [] for u in units}
     outs = {u: [] for u in units}
     k = 0
@@ -42,6 +43,10 @@ def build(units, edges, feeds, products):
         for _ in range(n):
             k += 1
             outs[u].append(tmo.AbstractStream('.p%d' % k))
+    if ports is not None:
+        for u in units:
+            random.Random('%s:%s:i' % (ports, u)).shuffle(ins[u])
+            random.Random('%s:%s:o' % (ports, u)).shuffle(outs[u])
     objs = {}
     with warnings.catch_warnings():
         warnings.simplefilter('ignore')
@@ -57,9 +62,9 @@ def flatten(net):
     return out
 
 
-def record(units, edges, feeds, products, order):
+def record(units, edges, feeds, products, order, ports=None):
     """One trace: Network.from_units on the units listed in `order`."""
-    objs = build(units, edges, feeds, products)
+    objs = build(units, edges, feeds, products, ports)
     names = {id(o): n for n, o in objs.items()}
     exc = 'none'
     steps = []
@@ -139,8 +144,8 @@ def random_flowsheet(rng, n, n_back):
     while True:
         edges = []
         for j in range(1, n):
-            k = rng.randint(1, min(2, j))
-            for i in rng.sample(range(j), k):
+            k = rng.choice([0, 1, 1, 1, 2, 2])          # 0: another root unit (several feed units)
+            for i in rng.sample(range(j), min(k, j)):
                 edges.append((units[i], units[j]))
         # respect the port limits
         def deg_ok(es):
@@ -166,6 +171,8 @@ def random_flowsheet(rng, n, n_back):
             if sum(1 for _, v in edges + back if v == units[i]) + feeds[units[i]] >= 3:
                 continue
             back.append(e)
+            if products[units[j]] and rng.random() < 0.5:
+                products[units[j]] -= 1          # the back-edge replaces a product outlet (units that reach a product only through the loop)
         if len(back) < n_back:
             continue
         if not reaches_product(units, edges + back, products):
